@@ -108,7 +108,23 @@ func runDocScale(m map[string]any) Result {
 			return fail("mismatch", c.out, fmt.Sprintf("document depth %d: outcome outside the admissible set", n))
 		}
 		if dur > 2*time.Second || (prev > 2*time.Millisecond && dur > 8*prev) {
-			return fail("cost", c.out, fmt.Sprintf("document depth %d took %v (depth %d: %v)", n, dur, n/2, prev))
+			// measure again (minimum of 5) before calling it growth
+			best := dur
+			for i := 0; i < 5; i++ {
+				if _, d2 := run(n); d2 < best {
+					best = d2
+				}
+			}
+			lo := prev
+			for i := 0; i < 5; i++ {
+				if _, d2 := run(n / 2); d2 < lo {
+					lo = d2
+				}
+			}
+			if best > 2*time.Second || (lo > 2*time.Millisecond && best > 8*lo) {
+				return fail("cost", c.out, fmt.Sprintf("document depth %d took %v (depth %d: %v; minima of 6 runs)", n, best, n/2, lo))
+			}
+			dur = best
 		}
 		prev = dur
 	}
@@ -258,7 +274,17 @@ func runScale(m map[string]any) Result {
 			return fail("cost", x.c.out, fmt.Sprintf("family %s depth %d took %v", family, n, x.dur))
 		}
 		if prev > 2*time.Millisecond && x.dur > 8*prev {
-			return fail("cost", x.c.out, fmt.Sprintf("family %s: depth %d took %v, depth %d took %v (more than quadratic growth)", family, n, x.dur, n/2, prev))
+			// doubling the depth cost more than 8x: measure both depths again, several
+			// times, and keep the minima -- a collector pause or a busy machine must
+			// not look like super-quadratic growth
+			lo := measureSearch(text(n/2), doc, 5).dur
+			hi := measureSearch(text(n), doc, 5).dur
+			if hi < x.dur {
+				x.dur = hi
+			}
+			if lo > 2*time.Millisecond && hi > 8*lo {
+				return fail("cost", x.c.out, fmt.Sprintf("family %s: depth %d took %v, depth %d took %v (more than quadratic growth, minima of 5 runs)", family, n, hi, n/2, lo))
+			}
 		}
 		prev = x.dur
 	}
